@@ -91,6 +91,8 @@ def run(tier, seed):
     gens = [
         dict(name="C14_exh2", consts=ec.consts(ACTS - {"addiov", "printf"}, 2, wa=1021, wb=4099, data=("a", "bLa"), nsel=(1, 9),
                                                sizes=(5000,)), max_hist=None if not q else 4000, stride=18 if q else 2),
+        # prepend into a first chain with some, but not enough, misalign space (add, drain part, prepend more)
+        dict(name="C14_exh_prepend", consts=ec.consts({"add", "drain", "prepend"}, 3, wa=1021, wb=4099, data=("bLa",), nsel=(1,))),
         dict(name="C14_rand", consts=ec.consts(ACTS, 12 if q else 20, wa=331, wb=1021, data=("", "a", "b", "aCL", "bLa"),
                                                nsel=(0, 1, 2, 9), sizes=(0, 2000, 5000), maxlen=8),
              simulate=3 if q else 30, depth=60),
